@@ -160,6 +160,10 @@ func (s *Summary) SortReports() {
 			cmp.Compare(a.Problem.Summary, b.Problem.Summary),
 			cmp.Compare(a.Problem.Details, b.Problem.Details),
 			cmpDiagnostics(a.Problem.Diagnostics, b.Problem.Diagnostics),
+			cmp.Compare(a.Rule.Lines.First, b.Rule.Lines.First),
+			cmp.Compare(a.Rule.Lines.Last, b.Rule.Lines.Last),
+			cmp.Compare(a.Owner, b.Owner),
+			cmp.Compare(a.Path.SymlinkTarget, b.Path.SymlinkTarget),
 		)
 	})
 }
